@@ -122,3 +122,29 @@ class Step:
 
 def normal_steps(paths):
     return [Step(p) for p in paths if p.outcome == 'return' and isinstance(p.value, Obj) and any(l['kind'] == 'recurrence' for l in p.ex.loops)]
+
+
+# ------------------------------------------------------------------------------------------------ non_ideal_diffusion_curve
+DX, TF = var('dx'), var('Tf')
+
+
+def run_curve(cx, mode='vacuum', comp_type='weight', curves='one', initial=False, model='NRTL', include_zero=False, extra_contracts=None):
+    src = cx.src
+    mix = W.mixture(src)
+    mem = W.membrane(src, experiments=Opaque('experiments'))
+    pv = W.mk(src, 'Pervaporation', tag='pervaporation', membrane=mem, mixture=mix)
+    kw = dict(diffusion_curve_set=curve_set(src, mix, curves), feed_temperature=TF, initial_feed_composition=W.composition(src, X0, comp_type), delta_composition=DX,
+              number_of_steps=N, permeate_temperature=TP if mode in ('temperature', 'both') else None, permeate_pressure=PP if mode in ('pressure', 'both') else None,
+              precision=PREC, calculation_type=model, include_zero=include_zero)
+    if initial: kw['initial_permeances'] = (W.permeance(src, var('Pi1')), W.permeance(src, var('Pi2')))
+    p = [N >= 1, TF > 0, X0 >= 0, X0 <= 1, PREC > 0] + W.mixture_pre()
+    if mode in ('temperature', 'both'): p.append(TP > 0)
+    if mode in ('pressure', 'both'): p.append(PP >= 0)
+    if curves == 'one': p.append(var('Tc') > 0)
+    else: p.append(var('nc', 'I') >= 2)
+    if initial: p += [var('Pi1') >= 0, var('Pi2') >= 0]
+    ctr = CP.base_contracts()
+    if extra_contracts: ctr.update(extra_contracts)
+    f = src.find('Pervaporation.non_ideal_diffusion_curve')
+    ps = cx.explore(lambda ex: ex.call_function(f, [], dict(kw), self_obj=pv, inline=True), contracts=ctr, pre=p, max_paths=2000)
+    return pv, kw, ps
